@@ -1,6 +1,9 @@
 package types
 
-import "github.com/agglayer/aggkit/internal/zzverif"
+import (
+	"github.com/agglayer/aggkit/bridgesync"
+	"github.com/agglayer/aggkit/internal/zzverif"
+)
 
 func refCount(from, to uint64) uint64 { // number of blocks of [from,to] for from<=to, saturating semantic of the repo: [0,0] is empty
 	return to - from + 1
@@ -27,4 +30,66 @@ func ZZVerif_C17_Gap() {
 	} else {
 		zzverif.Assert("gap b<a exact", g.FromBlock == b.ToBlock+1 && g.ToBlock == a.FromBlock-1 && !g.IsEmpty())
 	}
+}
+
+// zzParams builds certificate build parameters over the block range [from, from+span] with NB bridges and NC claims whose block
+// numbers are arbitrary but ordered inside the range (as the bridge syncer returns them); deposit counts / global indexes
+// identify the events.
+func zzParams(nb, nc int, span uint64) *CertificateBuildParams {
+	from := zzverif.U64("from")
+	zzverif.Assume(from >= 1 && from < 1<<40)
+	p := &CertificateBuildParams{FromBlock: from, ToBlock: from + span, CreatedAt: zzverif.U32("createdAt"), RetryCount: int(zzverif.U8("retry")),
+		L1InfoTreeRootFromWhichToProve: zzverif.Hash("l1root"), L1InfoTreeLeafCount: zzverif.U32("leafCount"),
+		CertificateType: CertificateType(zzverif.Int("certType", 1, 2))}
+	prev := from
+	for i := 0; i < nb; i++ {
+		bn := zzverif.U64("bBlock")
+		zzverif.Assume(bn >= prev && bn <= from+span)
+		prev = bn
+		p.Bridges = append(p.Bridges, bridgesync.Bridge{BlockNum: bn, BlockPos: uint64(i), DepositCount: uint32(100 + i),
+			Metadata: make([]byte, 10*(i+1))})
+	}
+	prev = from
+	for i := 0; i < nc; i++ {
+		bn := zzverif.U64("cBlock")
+		zzverif.Assume(bn >= prev && bn <= from+span)
+		prev = bn
+		p.Claims = append(p.Claims, bridgesync.Claim{BlockNum: bn, BlockPos: uint64(50 + i), OriginNetwork: uint32(200 + i), Metadata: make([]byte, 7*(i+1))})
+	}
+	return p
+}
+
+// ZZVerif_C17_Range: cutting the range keeps the first block and exactly the events of the kept blocks in their order; every
+// other field is copied.
+func ZZVerif_C17_Range() {
+	nb, nc := zzverif.Param("NB"), zzverif.Param("NC")
+	span := uint64(zzverif.Param("SPAN"))
+	p := zzParams(nb, nc, span)
+	to := zzverif.U64("newTo")
+	zzverif.Assume(to >= p.FromBlock && to <= p.ToBlock)
+	r, err := p.Range(p.FromBlock, to)
+	zzverif.Assert("cut succeeds", err == nil && r != nil)
+	if err != nil || r == nil {
+		return
+	}
+	zzverif.Assert("same first block, requested last block", r.FromBlock == p.FromBlock && r.ToBlock == to)
+	zzverif.Assert("other fields copied", r.CreatedAt == p.CreatedAt && r.RetryCount == p.RetryCount && r.LastSentCertificate == p.LastSentCertificate &&
+		r.L1InfoTreeRootFromWhichToProve == p.L1InfoTreeRootFromWhichToProve && r.L1InfoTreeLeafCount == p.L1InfoTreeLeafCount && r.CertificateType == p.CertificateType)
+	k := 0
+	for _, b := range p.Bridges {
+		if b.BlockNum <= to {
+			zzverif.Assert("kept bridge present at its place", k < len(r.Bridges) && r.Bridges[k].DepositCount == b.DepositCount && r.Bridges[k].BlockNum == b.BlockNum && len(r.Bridges[k].Metadata) == len(b.Metadata))
+			k++
+		}
+	}
+	zzverif.Assert("no other bridge", len(r.Bridges) == k)
+	k = 0
+	for _, c := range p.Claims {
+		if c.BlockNum <= to {
+			zzverif.Assert("kept claim present at its place", k < len(r.Claims) && r.Claims[k].OriginNetwork == c.OriginNetwork && r.Claims[k].BlockNum == c.BlockNum)
+			k++
+		}
+	}
+	zzverif.Assert("no other claim", len(r.Claims) == k)
+	zzverif.Reach("end")
 }
